@@ -26,6 +26,9 @@ def all_cases(tier, rng):
         ctors.append("ctor=pem roots=%s" % roots)
         ctors.append("ctor=pemdialable roots=%s" % roots)
     ctors.append("ctor=pembad roots=ca1")
+    ctors.append("ctor=pemempty roots=ca1")      # a bundle that is present but holds no certificate: empty, blank, text without a PEM block
+    ctors.append("ctor=pemblank roots=ca1")
+    ctors.append("ctor=pemtext roots=ca1")
     ctors.append("ctor=default")
     for roots in ("ca1", "ca2", "none"):
         for name in ("srv.test", "other.test", "-"):
